@@ -192,12 +192,229 @@ def oracle(res, tier):
             res.extra.setdefault("sag_ratio_Nfine40_over_80", {})[a] = sag[a] / max(sag[b], 1e-30)
 
 
+# ------------------------------------------------------------------------------------------------ model correspondence
+def frac(x):
+    from fractions import Fraction
+
+    return str(Fraction(x))
+
+
+def fpts(w):
+    return ";".join("%s,%s" % (frac(a), frac(b)) for a, b in w)
+
+
+def corr_wall(res, rng, n):
+    """wall orientation / closing: the real TokamakEquilibrium constructor on random polygons; polygons.area / clockwise directly"""
+    import contextlib
+    import io
+    import warnings
+    from hypnotoad import tokamak
+    from hypnotoad.utils import polygons
+    from props.c14 import example
+
+    r1, z1, p2, p1 = example("lsn")
+    lines, expect = [], []
+    hist = {"cw": 0, "ccw": 0, "one-sided-in-Z": 0}
+    for k in range(n):
+        m = rng.randint(3, 8)
+        # star-shaped polygon around a centre that may lie well above or below Z = 0, random start vertex and orientation
+        cz = rng.choice([0.0, 0.0, 0.75, -0.75, 1.5])
+        ang = sorted(rng.uniform(0, 6.283) for _ in range(m))
+        w = [(round((1.5 + rng.uniform(0.2, 0.5) * np.cos(a)) * 64) / 64, round((cz + rng.uniform(0.2, 0.5) * np.sin(a)) * 64) / 64) for a in ang]
+        if len(set(w)) < m:
+            continue
+        if rng.random() < 0.5:
+            w = w[::-1]
+        sh = rng.randrange(m)
+        w = w[sh:] + w[:sh]
+        a2 = 2 * polygons.area(w)
+        hist["cw" if a2 > 0 else "ccw"] += 1
+        hist["one-sided-in-Z"] += cz != 0.0
+        lines.append("c20a " + fpts(w))
+        expect.append("%s %s" % (frac(a2), "true" if polygons.clockwise(w) else "false"))
+        if k % 6 == 0:
+            before = list(w)
+            with warnings.catch_warnings(), contextlib.redirect_stdout(io.StringIO()):
+                warnings.simplefilter("ignore")
+                eq = tokamak.TokamakEquilibrium(r1, z1, p2.copy(), p1.copy(), [], wall=w, make_regions=False, settings={})
+            if w != before:
+                res.violation("wall-input-modified", "the caller's wall list is modified", {"wall": before})
+            stored = [(float(p.R), float(p.Z)) for p in eq.wall]
+            cl = [tuple(map(float, q)) for q in eq.closed_wallarray]
+            lines.append("c11n " + fpts(w))
+            expect.append(fpts(stored) + " | " + fpts(cl))
+    res.extra.setdefault("inputs", {})["wall"] = hist
+    return lines, expect, "wall orientation"
+
+
+def corr_insert(res, rng, n):
+    import contextlib
+    import io
+    import warnings
+    from hypnotoad.core.equilibrium import PsiContour, Point2D
+
+    lines, expect = [], []
+    for _ in range(n):
+        m = rng.randint(1, 7)
+        vals = [10 * (i + 1) for i in range(m)]
+        with warnings.catch_warnings(), contextlib.redirect_stdout(io.StringIO()):
+            warnings.simplefilter("ignore")
+            c = PsiContour(points=[Point2D(float(v), 0.0) for v in vals], psival=1.0, settings={}, Rrange=(0, 100), Zrange=(-1, 1))
+        si = rng.randint(0, m - 1)
+        ei = rng.choice([rng.randint(si, m - 1), rng.randint(-m, -1)])
+        c.startInd, c.endInd = si, ei
+        idx = rng.randint(-m - 2, m + 2)
+        c.insert(idx, Point2D(99.0, 0.0))
+        lines.append("c11i %d %d %d 99 %s" % (si, ei, idx, " ".join(map(str, vals))))
+        expect.append("%s | %d %d" % (" ".join(str(int(p.R)) for p in c.points), c.startInd, c.endInd))
+    return lines, expect, "PsiContour.insert"
+
+
+def corr_addwall(res, rng, n):
+    import contextlib
+    import io
+    import warnings
+    from hypnotoad.core.equilibrium import PsiContour, Point2D
+    from hypnotoad.core import mesh as meshmod
+
+    lines, expect = [], []
+    hist = {"replace-first": 0, "replace-second": 0, "insert": 0, "error": 0, "neg-upper-index": 0}
+    for _ in range(n):
+        m = rng.randint(5, 10)
+        vals = [10 * (i + 1) for i in range(m)]
+        lw, uw = rng.choice([(True, True), (True, False), (False, True)])
+        rad = rng.choice([1, 3])
+        li = rng.randint(0, m // 2 - 1)
+        kind_l = rng.choice(["replace-first", "replace-second", "insert"])
+        lp = {"replace-first": vals[li] + rng.choice([0, rad - 1]), "replace-second": vals[li + 1] - rng.choice([0, rad - 1]), "insert": vals[li] + 5}[kind_l]
+        uip = rng.randint(m // 2, m - 2)
+        kind_u = rng.choice(["replace-first", "replace-second", "insert"])
+        up = {"replace-first": vals[uip] + rng.choice([0, rad - 1]), "replace-second": vals[uip + 1] - rng.choice([0, rad - 1]), "insert": vals[uip] + 5}[kind_u]
+        neg = rng.random() < 0.4
+        ui = uip - m if neg else uip
+        if not lw:
+            li, lp = 0, 0
+        if not uw:
+            ui, up = -2, 0
+        with warnings.catch_warnings(), contextlib.redirect_stdout(io.StringIO()):
+            warnings.simplefilter("ignore")
+            c = PsiContour(points=[Point2D(float(v), 0.0) for v in vals], psival=1.0, settings={}, Rrange=(0, 1000), Zrange=(-1, 1))
+        si0, ei0 = 0, m - 1
+        c.startInd, c.endInd = si0, ei0
+        c.contourSfunc = lambda psi=None: (lambda i: float(i))
+        c.totalDistance = lambda psi=None: 1.0
+        c._reset_cached = lambda: None
+
+        class Stub:
+            pass
+
+        st = Stub()
+        st.contours = [c]
+        st.connections = {"lower": None if lw else 1, "upper": None if uw else 1}
+        st.user_options = Stub()
+        st.user_options.wall_point_exclude_radius = float(rad)
+        st.equilibriumRegion = Stub()
+        st.equilibriumRegion.psi = None
+        info = (c, li, Point2D(float(lp), 0.0) if lw else None, ui, Point2D(float(up), 0.0) if uw else None)
+
+        def pmap(f, it, **kw):
+            if f is meshmod._find_intersection:
+                return [info]
+            return [x[1] for x in it]
+
+        st.parallel_map = pmap
+        try:
+            with contextlib.redirect_stdout(io.StringIO()):
+                meshmod.MeshRegion.addPointAtWallToContours(st)
+            c2 = st.contours[0]
+            exp = "%s | %d %d" % (" ".join(str(int(p.R)) for p in c2.points), c2.startInd, c2.endInd)
+            if lw:
+                hist[kind_l] += 1
+            if uw:
+                hist[kind_u] += 1
+            hist["neg-upper-index"] += bool(neg and uw)
+        except IndexError:
+            exp = "error"
+            hist["error"] += 1
+        lines.append("c11w %d %d %d %d %d %d %d %d %d %s" % (lw, uw, li, lp, ui, up, rad, si0, ei0, " ".join(map(str, vals))))
+        expect.append(exp)
+    res.extra.setdefault("inputs", {})["addPointAtWall"] = hist
+    return lines, expect, "addPointAtWallToContours"
+
+
+def corr_mask(res, rng, n):
+    from hypnotoad.core import mesh as meshmod
+    from hypnotoad.core.multilocationarray import MultiLocationArray
+
+    lines, expect = [], []
+    hist = {"0": 0, "1": 0, "fraction": 0}
+    walls = [[(0, 0), (4, 0), (4, 4), (0, 4)], [(0, 0), (4, 1), (5, 4), (2, 5), (-1, 3)], [(0, 0), (4, 0), (4, 4), (2, 2.5), (0, 4)]]
+    for _ in range(n):
+        w = [(float(a), float(b)) for a, b in rng.choice(walls)]
+        closed = w + [w[0]]
+        q = lambda: (rng.randint(-8, 48) / 8 + 1 / 64, rng.randint(-8, 48) / 8 + 3 / 128)  # noqa: E731  (dyadic, off the vertices' rays)
+        p1, p2 = q(), q()
+        if p1 == p2:
+            continue
+
+        class Stub:
+            pass
+
+        st, eq = Stub(), Stub()
+        st.nx, st.ny = 1, 1
+        st.Rxy, st.Zxy = MultiLocationArray(1, 1), MultiLocationArray(1, 1)
+        st.Rxy.ylow = np.array([[p1[0], p2[0]]])
+        st.Zxy.ylow = np.array([[p1[1], p2[1]]])
+        eq.closed_wallarray = np.array(closed)
+        eq.Rmin, eq.Rmax, eq.Zmin, eq.Zmax = 1.0, 3.0 + 1 / 32, 1.0, 2.0 + 1 / 16
+        meshmod.MeshRegion.calcPenaltyMask(st, eq)
+        val = float(st.penalty_mask[0, 0])
+        hist["0" if val == 0 else "1" if val == 1 else "fraction"] += 1
+        p0 = ((eq.Rmax + eq.Rmin) / 2, (eq.Zmax + eq.Zmin) / 2)
+        lines.append("c11p %s %s %s %s" % (fpts(closed), fpts([p0]), fpts([p1]), fpts([p2])))
+        expect.append(val * val)
+    res.extra.setdefault("inputs", {})["penalty_mask"] = hist
+    return lines, expect, "calcPenaltyMask"
+
+
+def correspondence(res, tier):
+    from fractions import Fraction
+
+    rng = vlib.rng("C11-corr")
+    k = 1 if tier == "quick" else 6
+    batches = [corr_wall(res, rng, 120 * k), corr_insert(res, rng, 150 * k), corr_addwall(res, rng, 150 * k), corr_mask(res, rng, 200 * k)]
+    out = vlib.lean_driver([ln for b in batches for ln in b[0]])
+    i = 0
+    for ls, ex, name in batches:
+        bad = None
+        for ln, e in zip(ls, ex):
+            res.case(key=(name, ln.split()[0], len(ln) // 40), nontrivial=True)
+            o = out[i].strip()
+            i += 1
+            if isinstance(e, float):
+                ok = abs(float(Fraction(o)) - e) < 1e-12
+            else:
+                ok = o == e
+            if not ok and bad is None:
+                bad = (ln, e, o)
+        if bad:
+            if name == "wall orientation" and bad[0].startswith("c20a"):
+                res.violation("area", "polygons.area/clockwise give %s for the polygon %s; exact: %s" % (bad[1], bad[0][5:], bad[2]), {"line": bad[0]})
+            elif name == "wall orientation":
+                res.violation("wall-normalisation", "TokamakEquilibrium stores the wall %s for the input %s; anticlockwise + closed is %s" % (str(bad[1])[:200], bad[0][5:], bad[2][:200]), {"line": bad[0]})
+            else:
+                res.broken("model of %s differs from the implementation" % name, {"line": bad[0], "implementation": str(bad[1])[:300], "model": bad[2][:300]})
+        else:
+            res.traces += len(ls)
+
+
 def run(res, tier):
     res.rule = ("real grids with rectangular / slanted, clockwise / anticlockwise, coarse / subdivided walls: stored wall anticlockwise, closed, same vertices, "
                 "written unchanged; every target point (non-orthogonal: all rows; orthogonal: separatrix) within 2e-5*(40/Nfine)^2 m of the wall polyline and "
                 "on its flux surface; domain cells inside / boundary cells outside (winding number); penalty_mask against an independent winding-number and "
                 "crossing-fraction computation from the y-faces; model ops replayed on the real functions. distinct by (grid) / (op, outcome)")
     res.trusted += ["the winding-number point-in-polygon test used as reference (simple polygons in general position)"]
+    correspondence(res, tier)
     oracle(res, tier)
 
 
